@@ -9,6 +9,7 @@ The scratch worktree and its build output are removed afterwards; nothing is eve
 """
 import json, os, subprocess, sys, shutil, time
 
+REPO = os.environ.get("VP_RUN_REPO") or "/repo"     # (a background `vp run` works on its own copy of the repository)
 ROOT = os.path.dirname(os.path.dirname(os.path.abspath(__file__)))
 TARGET = "/var/tmp/seed-target"
 
@@ -26,8 +27,8 @@ def confirm(d):
     feats = (meta.get("features") or "").strip()
     fflag = f"--features {feats}" if feats else ""
     wt = f"/tmp/confirm-{os.path.basename(d.rstrip('/'))}"
-    sh(f"git -C /repo worktree remove --force {wt}")
-    rc, out = sh(f"git -C /repo worktree add -q --detach {wt} HEAD")
+    sh(f"git -C {REPO} worktree remove --force {wt}")
+    rc, out = sh(f"git -C {REPO} worktree add -q --detach {wt} HEAD")
     assert rc == 0, out
     env = {"CARGO_TARGET_DIR": TARGET}
     res = {}
@@ -46,7 +47,7 @@ def confirm(d):
             res["baseline_tests_pass"] = bool(lines) and all("ok." in l for l in lines) and "error" not in out
             res["baseline_summary"] = f"{len(lines)} test binaries, all ok" if res["baseline_tests_pass"] else out[-600:]
     finally:
-        sh(f"git -C /repo worktree remove --force {wt}")
+        sh(f"git -C {REPO} worktree remove --force {wt}")
     res["confirmed"] = all(res.get(k) for k in ("patch_applies", "demo_passes_without_change", "demo_fails_with_change", "baseline_tests_pass"))
     res["confirmed_at"] = time.strftime("%Y-%m-%d %H:%M")
     meta["confirmation"] = res
@@ -58,9 +59,9 @@ def confirm(d):
 def detect(d, props):
     meta = json.load(open(os.path.join(d, "meta.json")))
     props = props or [meta["property"]]
-    rc, out = sh("git -C /repo status --porcelain")
+    rc, out = sh(f"git -C {REPO} status --porcelain")
     assert out.strip() == "", "/repo is not clean: " + out
-    rc, out = sh(f"git -C /repo apply {os.path.abspath(os.path.join(d, 'patch.diff'))}")
+    rc, out = sh(f"git -C {REPO} apply {os.path.abspath(os.path.join(d, 'patch.diff'))}")
     assert rc == 0, out
     det = meta.get("detection", {})
     try:
@@ -72,7 +73,7 @@ def detect(d, props):
                       "detected": rc == 1 and len(v) > 0, "tail": "" if rc in (0, 1) else out[-800:]}
             print(p, json.dumps(det[p])[:400], flush=True)
     finally:
-        sh("git -C /repo checkout -- .")
+        sh(f"git -C {REPO} checkout -- .")
     meta["detection"] = det
     json.dump(meta, open(os.path.join(d, "meta.json"), "w"), indent=1)
     return 0
